@@ -63,6 +63,11 @@ type childResult struct {
 	Hash1      string   `json:"hash1,omitempty"`
 	HashN      string   `json:"hashN,omitempty"`
 	Notes      []string `json:"notes,omitempty"`
+	// alias groups (alias.go)
+	Members       []string                     `json:"members,omitempty"`
+	SeqMismatches int                          `json:"seq_mismatches,omitempty"`
+	AliasShared   []concshapes.SharedContainer `json:"alias_shared,omitempty"`
+	AliasStats    concshapes.LockDomainStats   `json:"alias_stats"`
 }
 
 func triHash(ts []*sdf.Triangle3) string {
@@ -250,6 +255,15 @@ func childMain(args []string) {
 	runtime.GOMAXPROCS(16)
 	env := &concshapes.Env{Repo: *repo, Tmp: *tmp}
 	for _, name := range strings.Split(*fams, ",") {
+		if strings.HasPrefix(name, aliasPrefix) {
+			if g := concshapes.AliasByName(strings.TrimPrefix(name, aliasPrefix)); g != nil {
+				os.Stdout.WriteString("\nBEGIN " + name + "\n")
+				res := runAlias(g, env, *seed, *n, *G, *R, *cells)
+				b, _ := json.Marshal(res)
+				os.Stdout.WriteString("\nEND " + name + " " + string(b) + "\n")
+			}
+			continue
+		}
 		f := concshapes.ByName(name)
 		if f == nil {
 			continue
@@ -266,6 +280,7 @@ func childMain(args []string) {
 
 type outcome struct {
 	res    *childResult
+	pre    *childResult // alias groups: members and lock domains, printed before the hammering
 	races  int
 	race1  string
 	fatal  string // runtime fatal error / crash text
@@ -313,6 +328,12 @@ func runChildren(bin string, env []string, fams []string, args []string, timeout
 				}
 				if o.fatal == "" && (strings.HasPrefix(l, "fatal error:") || strings.HasPrefix(l, "panic:")) {
 					o.fatal = l
+				}
+				if strings.HasPrefix(l, prePrefix) { // what the child found out before the hammering (survives a crash)
+					var pr childResult
+					if json.Unmarshal([]byte(strings.TrimPrefix(l, prePrefix)), &pr) == nil {
+						o.pre = &pr
+					}
 				}
 			}
 		}
@@ -419,6 +440,7 @@ func checkC10(c *Ctx, r *Report) error {
 			seen[f.Name] = true
 		}
 	}
+	var aliasOnly []string // nil: every alias group
 	if c.Replay != "" {
 		var rp struct {
 			FailingInputs []struct {
@@ -429,9 +451,13 @@ func checkC10(c *Ctx, r *Report) error {
 		}
 		if b, err := os.ReadFile(c.Replay); err == nil && json.Unmarshal(b, &rp) == nil && len(rp.FailingInputs) > 0 {
 			names = nil
+			aliasOnly = []string{}
 			for _, fi := range rp.FailingInputs {
 				if _, ok := groups[fi.Input.Family]; ok {
 					names = append(names, fi.Input.Family)
+				}
+				if strings.HasPrefix(fi.Input.Family, aliasPrefix) {
+					aliasOnly = append(aliasOnly, fi.Input.Family)
 				}
 			}
 		}
@@ -484,6 +510,12 @@ func checkC10(c *Ctx, r *Report) error {
 		if err != nil {
 			return err
 		}
+	}
+	// ---- aliased construction: shapes built from one another, evaluated together (alias.go)
+	if err := aliasStrata(c, r, self, raceBin, common, aliasOnly); err != nil {
+		return err
+	}
+	if raceBin != "" {
 		os.Remove(raceBin)
 	}
 	cs := &Cases{Kind: "cache", Imports: "From Sdfx Require Import Sys.Lockset.", Type: "Lockset.case", Fn: "Lockset.mismatches", PerShard: 50}
@@ -586,7 +618,7 @@ func checkC10(c *Ctx, r *Report) error {
 	r.Coverage["race_detector"] = raceNote
 	renderStrata(r)
 	probeStrata(c, r)
-	r.Rule = "one case = one constructor family (primitives, every combinator, wrappers, cache, voxel, mesh import via obj.ImportSTL/ImportTriMesh, text, obj parts) hammered in one mode (full speed / race detector): 16 goroutines evaluate the same point set (half of the points repeated) on a fresh instance, every value compared bit-exactly with sequential evaluation of another instance, then a NewMarchingCubesUniform render under GOMAXPROCS 1 and 16; non-trivial = always (each family has state reachable from Evaluate), distinct by family and mode. cache counter cases: call sequences with 0..40 calls on 1..12 distinct points against the atomic cache model; non-trivial = at least 2 calls. overlap cases: one per operand-holding constructor (unions of 2..300 operands plain/blended, intersect, difference, offset, cut, transform, scale, array, rotate union/copy, elongate, line-of, multi, cache, slice, the extrusions, loft, revolve, screw, orient, shell) and mode: operands are probe operands that re-enter Evaluate of the enclosing shape at other points (one goroutine, deterministic) or park the evaluation while another goroutine evaluates the same shape (nested and crossed schedules); every value compared bit-exactly with a second instance built from plain operands."
+	r.Rule = "one case = one constructor family (primitives, every combinator, wrappers, cache, voxel, mesh import via obj.ImportSTL/ImportTriMesh, text, obj parts) hammered in one mode (full speed / race detector): 16 goroutines evaluate the same point set (half of the points repeated) on a fresh instance, every value compared bit-exactly with sequential evaluation of another instance, then a NewMarchingCubesUniform render under GOMAXPROCS 1 and 16; non-trivial = always (each family has state reachable from Evaluate), distinct by family and mode. cache counter cases: call sequences with 0..40 calls on 1..12 distinct points against the atomic cache model; non-trivial = at least 2 calls. overlap cases: one per operand-holding constructor (unions of 2..300 operands plain/blended, intersect, difference, offset, cut, transform, scale, array, rotate union/copy, elongate, line-of, multi, cache, slice, the extrusions, loft, revolve, screw, orient, shell) and mode: operands are probe operands that re-enter Evaluate of the enclosing shape at other points (one goroutine, deterministic) or park the evaluation while another goroutine evaluates the same shape (nested and crossed schedules); every value compared bit-exactly with a second instance built from plain operands. alias cases: one per alias group (for each of the 64 operand-holding constructors: the stateful first operand itself, two results of the constructor around the same operand values, the constructor applied to its own result, a Cache2D in front of a 2D result; plus 9 hand-written groups: chain of three caches, two Transform3D of one cached extrusion, unions sharing an operand or a leading union, one cached profile under several extrusions, one operand value passed twice, meshes from one triangle slice, texts from one font, polygons/multis from one vertex slice) and mode: goroutine g of 16 evaluates member g mod M, all members at once, values bit-exact against the same members built with nothing shared and evaluated sequentially (also before and after the concurrent phase), the last two members rendered at the same time against the unshared ones rendered alone, and a reflection walk of the heap reachable from the members that reports a map/slice/channel held directly by two struct values with disjoint mutexes; non-trivial = always."
 	r.Trusted = append(r.Trusted,
 		"harness/effsum: static effect summariser (go/packages + go/ssa of golang.org/x/tools v0.29.0, loaded offline): field-based abstract locations, access-path equality for lock ownership, RLock counted as holding the lock for reads only, callee effects re-rooted at call sites; calls through function values are not followed",
 		"the Go memory model is abstracted to: conflicting accesses of two goroutines with no common mutex held",
